@@ -917,6 +917,35 @@ impl<'a> Gen<'a> {
     /// `iterable.iter().map(f).filter(p)...` ending in collect (a Vec) or reduce (a Num)
     fn iter_chain(&mut self, d: usize, collect: bool) -> Expr {
         self.label("iter_chain");
+        if self.rd.chance(1, 12) {
+            // a long source under a filter that rejects runs of 60-150 consecutive elements: however
+            // the adapter skips them, it must not cost a call frame per rejected element
+            self.label("long_rejected_run");
+            let n = 70 + self.rd.below(120);
+            let keep_from = n - 1 - self.rd.below(4);
+            let x = "flx";
+            let pred = Expr::Lambda(Rc::new(FnDef {
+                name: RefCell::new(String::new()),
+                params: vec![x.to_string()],
+                body: Body::Expr(Box::new(Expr::bin(BinOp::Ge, Expr::var(x), Expr::Num(keep_from as f64)))),
+                kind: FnKind::Lambda,
+            }));
+            // (bounds outside the pool of small literal ranges; the range is not compared with another)
+            let src = Expr::range(Expr::Num(0.0), Expr::Num(n as f64));
+            self.note_range(0, n as i64);
+            let mut e = Expr::invoke(Expr::invoke(src, "iter", vec![]), "filter", vec![pred]);
+            if self.rd.flag() {
+                let f = self.lambda(1);
+                e = Expr::invoke(e, "map", vec![f]);
+            }
+            return if collect {
+                Expr::invoke(e, "collect", vec![])
+            } else {
+                let f = self.lambda(2);
+                let init = self.lit_num();
+                Expr::invoke(e, "reduce", vec![f, init])
+            };
+        }
         let src = match self.rd.below(6) {
             5 => {
                 // elements that look like pieces of the iteration protocol itself: the sentinel's
